@@ -95,6 +95,7 @@ func opPathMatchRow(fields []string) string {
 // c20Materialise creates the tree below root
 func c20Materialise(root string, toks []string) error {
 	stack := []string{root}
+	first, nfile := "", 0
 	for _, t := range toks {
 		if t == "" {
 			continue
@@ -107,8 +108,26 @@ func c20Materialise(root string, toks []string) error {
 			}
 			stack = stack[:len(stack)-1]
 		case 'F':
-			if err := os.WriteFile(filepath.Join(cur, unhx(t[1:])), []byte("x\n"), 0o644); err != nil {
-				return err
+			// a "file" of the tree is a regular file, or (every fifth) a second NAME of an earlier file — a hard link —
+			// or (every fifth) a symbolic link to an earlier regular file: each is one more path that names a file
+			p := filepath.Join(cur, unhx(t[1:]))
+			nfile++
+			switch {
+			case first != "" && nfile%5 == 3:
+				if err := os.Link(first, p); err != nil {
+					return err
+				}
+			case first != "" && nfile%5 == 4:
+				if err := os.Symlink(first, p); err != nil {
+					return err
+				}
+			default:
+				if err := os.WriteFile(p, []byte("x\n"), 0o644); err != nil {
+					return err
+				}
+				if first == "" {
+					first = p
+				}
 			}
 		case 'D':
 			p := filepath.Join(cur, unhx(t[1:]))
